@@ -476,7 +476,7 @@ def dynRecvTableOK (env : Env) (F : GFile) (forTy : Ty) : Bool :=
     by a function of `G` of exactly that signature whose Go name the wrapper's own parameters do not capture -/
 def dynEntryOK (env : Env) (file : AFile) (G : List String) (tr : String) (forTy : Ty) : Bool :=
   dynRecvTy env forTy && valTy env forTy &&
-  (collectDynRequirements file).vtables.any (fun p => p.1 == tr && Goml.Mono.tyBeq p.2 forTy) &&
+  (collectDynRequirements env file).vtables.any (fun p => p.1 == tr && Goml.Mono.tyBeq p.2 forTy) &&
   (match traitMethodSigs env tr with
    | some sigs =>
      decide ((sigs.map fun s => gid s.1).Nodup) &&
@@ -492,7 +492,7 @@ def dynEntryOK (env : Env) (file : AFile) (G : List String) (tr : String) (forTy
 
 /-- the admissible vtables (none unless `G` carries the flag) -/
 def dynTable (env : Env) (file : AFile) (G : List String) : List (String × Ty) :=
-  if G.contains dynMarker then (collectDynRequirements file).vtables.filter fun p => dynEntryOK env file G p.1 p.2 else []
+  if G.contains dynMarker then (collectDynRequirements env file).vtables.filter fun p => dynEntryOK env file G p.1 p.2 else []
 
 /-- the method `m` of trait `tr` -/
 def dynSig (env : Env) (tr m : String) : Option (String × List Ty × Ty) :=
@@ -917,8 +917,8 @@ def fileOK (env : Env) (file : AFile) (n : Nat) : Bool :=
   reservedGoNames.all (fun r => (F.findFunc r).isNone) &&
   structsClosed env && (goodStructs env).all (structTableOK env F) && (goodEnums env).all (enumTableOK env F) &&
   (collectRuntimeTypes env file).refs.all (refTableOK env F) && (collectRuntimeTypes env file).tuples.all (tupleTableOK env F) &&
-  ((collectDynRequirements file).traits ++ (collectDynRequirements file).vtables.map (·.1)).all (dynStructTableOK env F) &&
-  (collectDynRequirements file).vtables.all (fun p => dynRecvTableOK env F p.2)
+  ((collectDynRequirements env file).traits ++ (collectDynRequirements env file).vtables.map (·.1)).all (dynStructTableOK env F) &&
+  (collectDynRequirements env file).vtables.all (fun p => dynRecvTableOK env F p.2)
 
 /-- `G` is closed: the file-level conditions hold and every member passes the local checks with
     all its callees in `G` -/
